@@ -31,7 +31,7 @@ def _handle_stop(src):
         ("stopping", r"self\.stopping\s*=\s*true"),
         ("wake_stop", r"self\.waker_queue\.wake\(\s*WakerInterest::Stop\s*\)"),
         ("stop_workers", r"\.map\(\s*\|worker\|\s*worker\.stop\(\s*graceful\s*\)\s*\)"),
-        ("await_workers", r"join_all\(\s*workers_stop\s*\)\s*\.await"),
+        ("await_workers", r"(?<![A-Za-z0-9_:.])join_all\(\s*workers_stop\s*\)\s*\.await"),
         ("join_accept", r"\.join\(\)"),
         ("completion", r"tx\.send\(\s*\(\)\s*\)"),
     ]
@@ -42,9 +42,12 @@ def _handle_stop(src):
             return _UNRECOGNISED, arm
         found.append((ms[0].start(), name))
     order = [n for _, n in sorted(found)]
-    if re.search(r"if\s+graceful\s*\{[^{}]*join_all\(\s*workers_stop\s*\)\s*\.await[^{}]*\}", arm):
+    # … and `join_all` is the crate's own (waits for every future whatever it yields), not a library look-alike
+    if not re.search(r"use crate::\{[^}]*\bjoin_all::join_all\b[^}]*\}", src) or re.search(r"use\s+futures_util::[^;]*\bjoin_all\b", src):
+        return _UNRECOGNISED, arm
+    if re.search(r"if\s+graceful\s*\{[^{}]*(?<![A-Za-z0-9_:.])join_all\(\s*workers_stop\s*\)\s*\.await[^{}]*\}", arm):
         guard = "graceful"
-    elif re.search(r"if\s+[^{]*\{[^{}]*join_all\(\s*workers_stop\s*\)\s*\.await[^{}]*\}", arm):
+    elif re.search(r"if\s+[^{]*\{[^{}]*(?<![A-Za-z0-9_:.])join_all\(\s*workers_stop\s*\)\s*\.await[^{}]*\}", arm):
         guard = "other"
     else:
         guard = "always"
@@ -64,13 +67,18 @@ def _run_loop(src):
 def _handle_stop_eager(src):
     m = re.search(r"pub fn stop\(&self, graceful: bool\).*?\n    \}\n", src, re.S)
     if not m:
-        return "def hsStopSendsEagerly : Bool := false", src[:200]
+        return "def hsStopSendsEagerly : Bool := false\n\ndef hsStopDropsUndelivered : Bool := false", src[:200]
     body = m.group(0)
     send = re.search(r"self\.cmd_tx\.send\(\s*ServerCommand::Stop\s*\{", body)
     asyn = re.search(r"\basync\b", body)
     comp = re.search(r"completion:\s*Some\(tx\)", body)
     ok = bool(send and asyn and comp and send.start() < asyn.start())
-    return "def hsStopSendsEagerly : Bool := %s" % ("true" if ok else "false"), body
+    # the result of the send is discarded on the spot (`let _ = …`): an undelivered command — the server is gone — is dropped
+    # with its completion sender before the future is built, and the future captures nothing but the receiver
+    drops = bool(re.search(r"let\s+_\s*=\s*self\.cmd_tx\.send\(\s*ServerCommand::Stop\s*\{", body)
+                 and re.search(r"\basync\s*\{\s*let\s+_\s*=\s*rx\.await;\s*\}", body))
+    return ("def hsStopSendsEagerly : Bool := %s\n\ndef hsStopDropsUndelivered : Bool := %s"
+            % ("true" if ok else "false", "true" if drops else "false")), body
 
 
 register("srv_handle_stop_order", span_custom(_S, _handle_stop))
@@ -186,3 +194,23 @@ def _mux(src):
 register("srv_worker_config_default", span_custom(_W, _config_default))
 register("srv_builder_default_config", span_custom(_B, _builder_default))
 register("srv_mux_cmd_rx", span_custom(_S, _mux))
+
+
+_J = "actix-server/src/join_all.rs"
+
+
+def _join_all(src):
+    """the crate's `JoinAll::poll`: every future still running is polled, one that is ready is stored whatever it yielded,
+    and the join is ready only when none is pending (a dead worker's stop receiver yields Err at once: the others are still
+    waited for)"""
+    m = re.search(r"impl<T> Future for JoinAll<T>\s*\{.*?\n\}\n", src, re.S)
+    body = m.group(0) if m else ""
+    ok = bool(m and re.search(
+        r"let mut ready = true;\s*let this = self\.get_mut\(\);\s*for fut in this\.fut\.iter_mut\(\)\s*\{\s*"
+        r"if let JoinFuture::Future\(f\) = fut\s*\{\s*match f\.as_mut\(\)\.poll\(cx\)\s*\{\s*"
+        r"Poll::Ready\(t\) => \{\s*\*fut = JoinFuture::Result\(Some\(t\)\);\s*\}\s*"
+        r"Poll::Pending => ready = false,\s*\}\s*\}\s*\}\s*if ready \{", body))
+    return "def jaWaitsForAll : Bool := %s" % ("true" if ok else "false"), body or src[:200]
+
+
+register("srv_join_all", span_custom(_J, _join_all))
